@@ -87,3 +87,247 @@ Theorem C13_truncate_unfixed_refuted :
               exists size max pick, Truncate.truncate_unfixed size max pick o = Panic.
 Proof. exact TruncateP.truncate_chain_unfixed_panics. Qed.
 Print Assumptions C13_truncate_unfixed_refuted.
+
+(* ======================================================================================================================
+   7. Second batch (Model/PanicSites2.v, docs/c13_sites.md): one (guard, use) pair per site.  For each: the function
+      as it stands (use behind its guard) never panics / spins, for ALL inputs (no size bound); and a witness that the
+      bare use does panic without the guard.  no_crash r := r <> Panic /\ r <> Spin. *)
+Require Import Verif.Model.PanicSites2 Verif.Proofs.PanicSites2P.
+
+(* 7.1 "for i := range xs { ys[i] }": panics exactly when ys is shorter than xs *)
+Theorem C13_zip_loop_panics_iff : forall (A B : Type) (xs : list A) (ys : list B),
+  zip_loop xs ys = Panic <-> (length ys < length xs)%nat.
+Proof. exact @zip_loop_panic_iff. Qed.
+Print Assumptions C13_zip_loop_panics_iff.
+Theorem C13_zip_guard_needed_refuted : exists (xs ys : list N), zip_loop xs ys = Panic.
+Proof. exact zip_guard_needed_refuted. Qed.
+Print Assumptions C13_zip_guard_needed_refuted.
+
+(* the seven functions that run such a loop behind a length comparison (reader answers vs. things asked about, token
+   data vs. messages of a pending report from the previous outcome, token data of two observers) *)
+Theorem C13_validate_roots_state_never_panics : forall (A B : Type) (chains : list A) (answers : list B),
+  no_crash (validate_roots_state chains answers).
+Proof. exact @validate_roots_state_no_crash. Qed.
+Print Assumptions C13_validate_roots_state_never_panics.
+Theorem C13_observe_offramp_next_never_panics : forall (A B : Type) (chains : list A) (answers : list B),
+  no_crash (observe_offramp_next chains answers).
+Proof. exact @observe_offramp_next_no_crash. Qed.
+Print Assumptions C13_observe_offramp_next_never_panics.
+Theorem C13_observe_feed_prices_never_panics : forall (A B : Type) (tokens : list A) (prices : list B),
+  no_crash (observe_feed_prices tokens prices).
+Proof. exact @observe_feed_prices_no_crash. Qed.
+Print Assumptions C13_observe_feed_prices_never_panics.
+Theorem C13_all_source_configs_never_panics : forall (A B : Type) (sels : list A) (cfgs : list B),
+  no_crash (all_source_configs sels cfgs).
+Proof. exact @all_source_configs_no_crash. Qed.
+Print Assumptions C13_all_source_configs_never_panics.
+Theorem C13_report_token_data_never_panics : forall (A B : Type) (msgs : list A) (toks : list B),
+  no_crash (report_token_data msgs toks).
+Proof. exact @report_token_data_no_crash. Qed.
+Print Assumptions C13_report_token_data_never_panics.
+Theorem C13_token_merge_never_panics : forall (A B : Type) (from : list A) (base : list B),
+  no_crash (token_merge from base).
+Proof. exact @token_merge_no_crash. Qed.
+Print Assumptions C13_token_merge_never_panics.
+(* priceReader.GetFeeQuoterTokenUpdates after the repair F72; the original indexed the answer unchecked *)
+Theorem C13_fee_quoter_updates_never_panics : forall (A B : Type) (tokens : list A) (updates : list B),
+  no_crash (fee_quoter_updates tokens updates).
+Proof. exact @fee_quoter_updates_no_crash. Qed.
+Print Assumptions C13_fee_quoter_updates_never_panics.
+Theorem C13_fee_quoter_updates_same_as_unfixed : forall (A B : Type) (tokens : list A) (updates : list B),
+  length updates = length tokens -> fee_quoter_updates tokens updates = fee_quoter_updates_unfixed tokens updates.
+Proof. exact @fee_quoter_updates_same. Qed.
+Print Assumptions C13_fee_quoter_updates_same_as_unfixed.
+Theorem C13_fee_quoter_updates_unfixed_panics_iff : forall (A B : Type) (tokens : list A) (updates : list B),
+  fee_quoter_updates_unfixed tokens updates = Panic <-> (length updates < length tokens)%nat.
+Proof. exact @fee_quoter_updates_unfixed_panics. Qed.
+Print Assumptions C13_fee_quoter_updates_unfixed_panics_iff.
+Theorem C13_fee_quoter_updates_unfixed_refuted :
+  exists (tokens updates : list N), fee_quoter_updates_unfixed tokens updates = Panic.
+Proof. exact fee_quoter_updates_unfixed_refuted. Qed.
+Print Assumptions C13_fee_quoter_updates_unfixed_refuted.
+
+(* 7.2 execute report builder on a pending report of a decodable previous outcome: any numbers of messages and of
+   token data entries *)
+Theorem C13_check_message_never_panics : forall (M T : Type) (msgs : list M) (toks : list T) (idx : Z),
+  (0 <= idx)%Z -> no_crash (check_message msgs toks idx).
+Proof. exact @check_message_no_crash. Qed.
+Print Assumptions C13_check_message_never_panics.
+Theorem C13_builder_add_never_panics : forall (M T : Type) (msgs : list M) (toks : list T),
+  no_crash (builder_add msgs toks).
+Proof. exact @builder_add_no_crash. Qed.
+Print Assumptions C13_builder_add_never_panics.
+Theorem C13_check_message_guard_needed_refuted :
+  exists (msgs toks : list N) idx, check_message_unguarded msgs toks idx = Panic /\ check_message msgs toks idx = Err.
+Proof. exact check_message_guard_needed_refuted. Qed.
+Print Assumptions C13_check_message_guard_needed_refuted.
+
+(* 7.3 the leader's query: RMN signature bundle with nil / short entries (F10 repaired), bundle missing altogether *)
+Theorem C13_ecdsa_sig_never_panics : forall sig, no_crash (ecdsa_sig_from_pb sig).
+Proof. exact ecdsa_sig_from_pb_no_crash. Qed.
+Print Assumptions C13_ecdsa_sig_never_panics.
+Theorem C13_ecdsa_sig_guard_needed_refuted :
+  ecdsa_sig_from_pb_unguarded None = Panic /\
+  exists r s, ecdsa_sig_from_pb_unguarded (Some (r, s)) = Panic /\ ecdsa_sig_from_pb (Some (r, s)) = Err.
+Proof. exact ecdsa_sig_guard_needed_refuted. Qed.
+Print Assumptions C13_ecdsa_sig_guard_needed_refuted.
+Theorem C13_lane_update_never_panics : forall lu, no_crash (lane_update_from_pb lu).
+Proof. exact lane_update_from_pb_no_crash. Qed.
+Print Assumptions C13_lane_update_never_panics.
+Theorem C13_lane_update_guard_needed_refuted :
+  lane_update_from_pb_unguarded None = Panic /\
+  lane_update_from_pb_unguarded (Some (mkPbLane None (Some (1, 2)%N) (repeat 0%N 32))) = Panic /\
+  lane_update_from_pb_unguarded (Some (mkPbLane (Some 5%N) None (repeat 0%N 32))) = Panic /\
+  lane_update_from_pb_unguarded (Some (mkPbLane (Some 5%N) (Some (1, 2)%N) (repeat 0%N 5))) = Panic.
+Proof. exact lane_update_guard_needed_refuted. Qed.
+Print Assumptions C13_lane_update_guard_needed_refuted.
+Theorem C13_verify_query_never_panics : forall building retry cfg_empty verified (q : option pb_bundle),
+  no_crash (verify_query building retry cfg_empty verified q).
+Proof. exact verify_query_no_crash. Qed.
+Print Assumptions C13_verify_query_never_panics.
+Theorem C13_verify_query_guard_needed_refuted :
+  exists building retry cfg_empty verified,
+    verify_query_unguarded building retry cfg_empty verified None = Panic /\
+    verify_query building retry cfg_empty verified None = Err.
+Proof. exact verify_query_guard_needed_refuted. Qed.
+Print Assumptions C13_verify_query_guard_needed_refuted.
+Theorem C13_build_report_bundle_never_panics : forall q : option pb_bundle, no_crash (build_report_bundle q).
+Proof. exact build_report_bundle_no_crash. Qed.
+Print Assumptions C13_build_report_bundle_never_panics.
+
+(* 7.4 Deviates: any two non-nil big integers (zero, negative, huge); and on medians of validated observations *)
+Theorem C13_deviates_never_panics : forall a b ppb : Z, no_crash (deviates (Some a) (Some b) ppb).
+Proof. exact deviates_no_crash. Qed.
+Print Assumptions C13_deviates_never_panics.
+Theorem C13_deviates_of_validated_medians_never_panics : forall (xs ys : list (option Z)) (ppb : Z),
+  all_some xs = true -> all_some ys = true -> xs <> [] -> ys <> [] -> no_crash (deviates_of_medians xs ys ppb).
+Proof. exact deviates_of_medians_no_crash. Qed.
+Print Assumptions C13_deviates_of_validated_medians_never_panics.
+Theorem C13_deviates_guard_needed_refuted :
+  deviates_unguarded (Some 5%Z) (Some 0%Z) 1 = Panic /\ deviates (Some 5%Z) (Some 0%Z) 1 = Ok true /\
+  deviates None (Some 1%Z) 1 = Panic /\ deviates (Some 1%Z) None 1 = Panic.
+Proof. exact deviates_guard_needed_refuted. Qed.
+Print Assumptions C13_deviates_guard_needed_refuted.
+
+(* 7.5 token data consensus of execute Outcome: Append at any index of a range loop, writes into made maps *)
+Theorem C13_append_at_never_panics : forall (A : Type) (d : A) (l : list A) (index : Z) (x : A),
+  (0 <= index)%Z ->
+  exists l', append_at d l index x = Ok l' /\ length l' = Nat.max (length l) (Z.to_nat (index + 1)).
+Proof. exact @append_at_ok. Qed.
+Print Assumptions C13_append_at_never_panics.
+Theorem C13_append_at_guard_needed_refuted :
+  append_at_unguarded [1; 2]%N 2 9%N = Panic /\ append_at 0%N [1; 2]%N 2 9%N = Ok [1; 2; 9]%N /\
+  append_at 0%N [1; 2]%N (-1) 9%N = Panic.
+Proof. exact append_at_guard_needed_refuted. Qed.
+Print Assumptions C13_append_at_guard_needed_refuted.
+Theorem C13_merge_tok_never_panics : forall fchain entries (m : tokmap),
+  inner_made m = true -> no_crash (merge_tok_all fchain m entries).
+Proof. exact merge_tok_all_no_crash. Qed.
+Print Assumptions C13_merge_tok_never_panics.
+Theorem C13_merge_tok_guard_needed_refuted :
+  merge_tok_write_unguarded [] 5 10 1 = Panic /\ exists m', merge_tok_write [5]%N [] 5 10 1 = Ok m'.
+Proof. exact merge_tok_guard_needed_refuted. Qed.
+Print Assumptions C13_merge_tok_guard_needed_refuted.
+
+(* 7.6 RMN peer responses: root length before Bytes32(root), empty vote table before values[len-1], address suffix *)
+Theorem C13_root32_never_panics : forall root, no_crash (root32 root).
+Proof. exact root32_no_crash. Qed.
+Print Assumptions C13_root32_never_panics.
+Theorem C13_root32_guard_needed_refuted : to_bytes32 (repeat 0%N 31) = Panic /\ root32 (repeat 0%N 31) = Err.
+Proof. exact root32_guard_needed_refuted. Qed.
+Print Assumptions C13_root32_guard_needed_refuted.
+Theorem C13_max_count_never_panics : forall counts, no_crash (max_count counts).
+Proof. exact max_count_no_crash. Qed.
+Print Assumptions C13_max_count_never_panics.
+Theorem C13_max_count_guard_needed_refuted : max_count_unguarded [] = Panic /\ max_count [] = Ok None.
+Proof. exact max_count_guard_needed_refuted. Qed.
+Print Assumptions C13_max_count_guard_needed_refuted.
+Theorem C13_keep_n_right_never_panics : forall (b : list N) (n : N),
+  (N.of_nat (length b) < two64)%N -> no_crash (keep_n_right b n).
+Proof. exact keep_n_right_no_crash. Qed.
+Print Assumptions C13_keep_n_right_never_panics.
+Theorem C13_keep_n_right_guard_needed_refuted :
+  keep_n_right_unguarded [1; 2]%N 3 = Panic /\ keep_n_right [1; 2]%N 3 = Ok [1; 2]%N.
+Proof. exact keep_n_right_guard_needed_refuted. Qed.
+Print Assumptions C13_keep_n_right_guard_needed_refuted.
+
+(* 7.7 reader results: USDC event payloads, fee components and prices for the costly-message test, packed fee
+   updates, price feed answers, chain writer answers *)
+Theorem C13_unpack_id_never_panics : forall arg0, no_crash (unpack_id arg0).
+Proof. exact unpack_id_no_crash. Qed.
+Print Assumptions C13_unpack_id_never_panics.
+Theorem C13_source_token_payload_never_panics : forall extra, no_crash (source_token_payload extra).
+Proof. exact source_token_payload_no_crash. Qed.
+Print Assumptions C13_source_token_payload_never_panics.
+Theorem C13_usdc_guards_needed_refuted :
+  gslice (repeat 0%N 31) 0 32 = Panic /\ unpack_id (repeat 0%N 31) = Err /\
+  source_token_payload_unguarded (repeat 0%N 63) = Panic /\ source_token_payload (repeat 0%N 63) = Err.
+Proof. exact usdc_guards_needed_refuted. Qed.
+Print Assumptions C13_usdc_guards_needed_refuted.
+Theorem C13_exec_cost_never_panics : forall dests exec_fee da_fee native,
+  no_crash (exec_cost dests exec_fee da_fee native).
+Proof. exact exec_cost_no_crash. Qed.
+Print Assumptions C13_exec_cost_never_panics.
+Theorem C13_exec_cost_guard_needed_refuted :
+  exec_cost_unguarded [] (Some 1%Z) (Some 1%Z) [] = Panic /\
+  exec_cost_unguarded [900]%N None (Some 1%Z) [(900%N, 2%Z)] = Panic /\
+  exec_cost_unguarded [900]%N (Some 1%Z) None [(900%N, 2%Z)] = Panic /\
+  exec_cost [900]%N None (Some 1%Z) [(900%N, 2%Z)] = Err.
+Proof. exact exec_cost_guard_needed_refuted. Qed.
+Print Assumptions C13_exec_cost_guard_needed_refuted.
+(* a message read without FeeValueJuels (F70 repaired: fee 0; the original multiplied by the nil value) *)
+Theorem C13_msg_fee_never_panics : forall link juels, no_crash (msg_fee link juels).
+Proof. exact msg_fee_no_crash. Qed.
+Print Assumptions C13_msg_fee_never_panics.
+Theorem C13_msg_fee_same_as_unfixed : forall link j, msg_fee link (Some j) = msg_fee_unfixed link (Some j).
+Proof. exact msg_fee_same. Qed.
+Print Assumptions C13_msg_fee_same_as_unfixed.
+Theorem C13_msg_fee_unfixed_refuted : exists link, msg_fee_unfixed link None = Panic.
+Proof. exact msg_fee_unfixed_refuted. Qed.
+Print Assumptions C13_msg_fee_unfixed_refuted.
+Theorem C13_packed_fee_never_panics : forall ts v, no_crash (packed_fee ts v).
+Proof. exact packed_fee_no_crash. Qed.
+Print Assumptions C13_packed_fee_never_panics.
+Theorem C13_packed_fee_guard_needed_refuted : from_packed_fee None = Panic /\ packed_fee 1700000000 None = Ok None.
+Proof. exact packed_fee_guard_needed_refuted. Qed.
+Print Assumptions C13_packed_fee_guard_needed_refuted.
+(* price feed answer without a value (F73 repaired) *)
+Theorem C13_raw_price_never_panics : forall answer decimals, no_crash (raw_price answer decimals).
+Proof. exact raw_price_no_crash. Qed.
+Print Assumptions C13_raw_price_never_panics.
+Theorem C13_raw_price_same_as_unfixed : forall a decimals, raw_price (Some a) decimals = raw_price_unfixed (Some a) decimals.
+Proof. exact raw_price_same. Qed.
+Print Assumptions C13_raw_price_same_as_unfixed.
+Theorem C13_raw_price_unfixed_refuted : forall decimals, raw_price_unfixed None decimals = Panic.
+Proof. exact raw_price_unfixed_refuted. Qed.
+Print Assumptions C13_raw_price_unfixed_refuted.
+(* chain writer answering (nil, nil) (F74 repaired) *)
+Theorem C13_fee_components_never_panics : forall (C : Type) (answers : list (N * option C)), no_crash (fee_components answers).
+Proof. exact @fee_components_no_crash. Qed.
+Print Assumptions C13_fee_components_never_panics.
+Theorem C13_fee_components_same_as_unfixed : forall (C : Type) (answers : list (N * option C)),
+  forallb (fun e => is_some (snd e)) answers = true -> fee_components answers = fee_components_unfixed answers.
+Proof. exact @fee_components_same. Qed.
+Print Assumptions C13_fee_components_same_as_unfixed.
+Theorem C13_fee_components_unfixed_refuted : exists answers : list (N * option N), fee_components_unfixed answers = Panic.
+Proof. exact fee_components_unfixed_refuted. Qed.
+Print Assumptions C13_fee_components_unfixed_refuted.
+
+(* 7.8 execute GetCommitReports observation: the executed-range loop of filterOutExecutedMessages over uint64 bounds
+   (F71 repaired): total for every report / executed range, equal to the original wherever that one returned; the
+   original never returned exactly for an executed range and a report both ending at 2^64-1 (report not fully executed) *)
+Theorem C13_filter_one_total : forall lo hi a b, exists r, filter_one lo hi a b = Ok r.
+Proof. exact filter_one_total. Qed.
+Print Assumptions C13_filter_one_total.
+Theorem C13_filter_one_refines_original : forall lo hi a b r,
+  filter_one_unfixed lo hi a b = Ok r -> filter_one lo hi a b = Ok r.
+Proof. exact filter_one_refines. Qed.
+Print Assumptions C13_filter_one_refines_original.
+Theorem C13_filter_one_unfixed_spins_iff : forall lo hi a b,
+  (lo <= max64)%N -> (hi <= max64)%N -> (a <= max64)%N -> (b <= max64)%N ->
+  (filter_one_unfixed lo hi a b = Spin <-> (b = max64 /\ hi = max64 /\ lo < a)%N).
+Proof. exact filter_one_unfixed_spin_iff. Qed.
+Print Assumptions C13_filter_one_unfixed_spins_iff.
+Theorem C13_filter_one_unfixed_refuted : exists lo hi a b, filter_one_unfixed lo hi a b = Spin.
+Proof. exact filter_one_unfixed_refuted. Qed.
+Print Assumptions C13_filter_one_unfixed_refuted.
